@@ -8,7 +8,9 @@
     exactly the layout change."
 
     Statements only; proofs in [Proofs/LayoutKit.v] (generic mechanisms), [Proofs/LayoutTailFixed.v],
-    [Proofs/LayoutTailTbl.v] (spare bytes, per box) and [Proofs/LayoutProofs.v] (containers).
+    [Proofs/LayoutTailTbl.v] (spare bytes, per box), [Proofs/LayoutProofs.v] (stbl, minf, mdia, trak,
+    moov), [Proofs/LayoutMore.v] (udta, mvex, dinf, moof, traf), [Proofs/LayoutOpen.v] (the reader
+    loop) and [Proofs/LayoutShift.v] (sample offsets follow the media data).
 
     Vocabulary ([LayoutKit.v]).  A [child] is a header form ([c_w64]: 16-byte [size = 1] +
     [largesize] header instead of the 8-byte one), a type code and a payload; [c_bytes c] is its
@@ -31,10 +33,18 @@
       forms, the spare bytes, and the layouts INSIDE nested containers being arbitrary on both
       sides) decode to the same value and end at their respective ends;
     - [*_child_*]: the leaves (either header, spare bytes) and the nested containers are such
-      children, so the theorems compose from stbl up to moov.
+      children, so the theorems compose from stbl up to moov and to the file;
+    - [open_is_a_fold] / [layout_invariance_top_level]: the same for [Mp4Reader::read_header];
+    - [sample_offsets_shift_with_the_data], [read_sample_follows_the_data]: when the chunk
+      offsets are rewritten by the displacement of the media data, every sample offset moves by
+      exactly that displacement and the same samples are read.
+    [ex12_two_files] is a complete pair of files (replayed on the Rust code: same result).
     What is not proved here is listed at [C12_statement] at the end; what is FALSE is in the
     section "Limits" ([*_refuted]). *)
-From MP4 Require Import LayoutKit LayoutTailFixed LayoutTailTbl LayoutProofs Reader.
+From MP4 Require Import LayoutKit LayoutTailFixed LayoutTailTbl LayoutProofs LayoutMore LayoutOpen LayoutShift Reader.
+From MP4 Require Track.
+From MP4 Require Import RtFtyp IsoFtyp.
+From Coq Require Import Relations.
 From MP4 Require Import RtMvhd RtTkhd RtMdhd RtVmhd RtSmhd RtHdlr RtStts RtCtts RtStsc RtStsz RtStss RtStco RtCo64.
 From MP4 Require Import IsoTkhd IsoMdhd IsoVmhd IsoSmhd IsoHdlr IsoStts IsoCtts IsoStsc IsoStsz IsoStss IsoStco IsoCo64.
 Open Scope string_scope.
@@ -442,6 +452,157 @@ Proof.
 Qed.
 Print Assumptions other_leaves_decode.
 
+(** the other containers built on the same loop: udta, mvex, dinf, moof, traf *)
+Theorem layout_invariance_udta : invariance_stmt udta_body udta_indep udta_neutral dec_udta_fuel.
+Proof. exact LayoutMore.layout_invariance_udta. Qed.
+Theorem layout_invariance_mvex : invariance_stmt mvex_body mvex_indep mvex_neutral dec_mvex_fuel.
+Proof. exact LayoutMore.layout_invariance_mvex. Qed.
+Theorem layout_invariance_dinf : invariance_stmt dinf_body dinf_indep dinf_neutral dec_dinf_fuel.
+Proof. exact LayoutMore.layout_invariance_dinf. Qed.
+Theorem layout_invariance_moof : invariance_stmt moof_body moof_indep moof_neutral dec_moof_fuel.
+Proof. exact LayoutMore.layout_invariance_moof. Qed.
+Theorem layout_invariance_traf : invariance_stmt traf_body traf_indep traf_neutral dec_traf_fuel.
+Proof. exact LayoutMore.layout_invariance_traf. Qed.
+Theorem order_irrelevant_udta : order_stmt udta_dispatch udta_name_kind.
+Proof. exact udta_order_irrelevant. Qed.
+Theorem order_irrelevant_mvex : order_stmt mvex_dispatch mvex_name_kind.
+Proof. exact mvex_order_irrelevant. Qed.
+Theorem order_irrelevant_dinf : order_stmt dinf_dispatch dinf_name_kind.
+Proof. exact dinf_order_irrelevant. Qed.
+Theorem order_irrelevant_moof : order_stmt moof_dispatch moof_name_kind.
+Proof. exact moof_order_irrelevant. Qed.
+Theorem order_irrelevant_traf : order_stmt traf_dispatch traf_name_kind.
+Proof. exact traf_order_irrelevant. Qed.
+Print Assumptions layout_invariance_traf.
+
+Theorem more_nested_containers_decode : forall m,
+  (forall w64 cs items F0 v,
+     Forall2 (decodes_to (dinf_body m) F0) cs items -> Forall child_wf cs ->
+     dinf_finish (put_all dinf_put items None) = Some v ->
+     decodes_to (minf_body m) (F0 + length cs) (mkChild w64 0x64696e66 (render cs)) (NI_dinf v)) /\
+  (forall w64 cs items F0 v,
+     Forall2 (decodes_to (udta_body m) F0) cs items -> Forall child_wf cs ->
+     udta_finish (put_all udta_put items None) = Some v ->
+     decodes_to (moov_body m) (F0 + length cs) (mkChild w64 0x75647461 (render cs)) (VI_udta v)) /\
+  (forall w64 cs items F0 v,
+     Forall2 (decodes_to (mvex_body m) F0) cs items -> Forall child_wf cs ->
+     mvex_finish (put_all mvex_put items (None, None)) = Some v ->
+     decodes_to (moov_body m) (F0 + length cs) (mkChild w64 0x6d766578 (render cs)) (VI_mvex v)) /\
+  (forall w64 cs items F0 v,
+     Forall2 (decodes_to (traf_body m) F0) cs items -> Forall child_wf cs ->
+     traf_finish (put_all traf_put items (None, None, None)) = Some v ->
+     decodes_to (moof_body m) (F0 + length cs) (mkChild w64 0x74726166 (render cs)) (OFI_traf v)).
+Proof.
+  intros m. repeat split.
+  - exact (minf_child_dinf m). - exact (moov_child_udta m). - exact (moov_child_mvex m).
+  - exact (moof_child_traf m).
+Qed.
+
+(** ** The top level: [Mp4Reader::read_header] *)
+
+(** [open_result a sz]: what [read_header] returns for the accumulator [a] of its loop and
+    [sz = current - start] bytes read.  [open_put_all p cs items a]: the items put one after the
+    other, each with the position of its box (a moof item records it as its moof offset).
+    A file (or the part of a stream from [p] on) that is the rendering of top-level children
+    whose bodies decode to items opens to exactly that. *)
+Theorem open_is_a_fold : forall m fuel cs items F0 d l p rest,
+  Forall2 (decodes_to (open_body m) F0) cs items -> Forall child_wf cs ->
+  (F0 + length cs <= fuel)%nat -> p + total_len cs < 2 ^ 63 ->
+  run (open_fuel fuel m (p + total_len cs)) (mkStream d l p (render cs ++ rest))
+  = (open_result (open_put_all p cs items (None, None, [], [], [])) (total_len cs),
+     mkStream d l (p + total_len cs) rest).
+Proof. exact open_fuel_children. Qed.
+Print Assumptions open_is_a_fold.
+
+(** Files without moof boxes: two renderings whose item sequences are equivalent (free /
+    mdat / unknown boxes inserted anywhere, ftyp / moov / emsg / skipped boxes in another
+    order, any header forms, any layout inside the moov) open to readers that are equal except
+    for [rd_size], which is the length of each file. *)
+Theorem layout_invariance_top_level : forall m F0 cs items cs' items',
+  Forall2 (decodes_to (open_body m) F0) cs items -> Forall child_wf cs ->
+  Forall2 (decodes_to (open_body m) F0) cs' items' -> Forall child_wf cs' ->
+  Forall open_static items -> Forall open_static items' ->
+  items_equiv open_indep open_neutral items items' ->
+  forall fuel fuel' d l p rest d' l' p' rest',
+  (F0 + length cs <= fuel)%nat -> p + total_len cs < 2 ^ 63 ->
+  (F0 + length cs' <= fuel')%nat -> p' + total_len cs' < 2 ^ 63 ->
+  exists r r',
+    run (open_fuel fuel m (p + total_len cs)) (mkStream d l p (render cs ++ rest))
+    = (r, mkStream d l (p + total_len cs) rest) /\
+    run (open_fuel fuel' m (p' + total_len cs')) (mkStream d' l' p' (render cs' ++ rest'))
+    = (r', mkStream d' l' (p' + total_len cs') rest') /\
+    reader_modulo_size r = reader_modulo_size r' /\
+    (forall x, r = Ok x -> rd_size x = total_len cs) /\
+    (forall x, r' = Ok x -> rd_size x = total_len cs').
+Proof. exact layout_invariance_open. Qed.
+Print Assumptions layout_invariance_top_level.
+
+Theorem top_level_children_decode : forall m,
+  (forall c, open_known (boxtype_of_u32 (c_code c)) = false -> decodes_to (open_body m) 0 c OI_skip) /\
+  (forall w64 payload, decodes_to (open_body m) 0 (mkChild w64 0x6d646174 payload) OI_skip) /\
+  (forall w64 v, ftyp_wf v = true -> ftyp_size v < U32 ->
+     decodes_to (open_body m) 0 (mkChild w64 0x66747970 (iso_ftyp_payload v)) (OI_ftyp v)) /\
+  (forall w64 cs items F0 v,
+     Forall2 (decodes_to (moov_body m) F0) cs items -> Forall child_wf cs ->
+     moov_finish (put_all moov_put items (None, None, None, None, [])) = Some v ->
+     decodes_to (open_body m) (F0 + length cs) (mkChild w64 0x6d6f6f76 (render cs)) (OI_moov v)) /\
+  (forall w64 cs items F0 v,
+     Forall2 (decodes_to (moof_body m) F0) cs items -> Forall child_wf cs ->
+     moof_finish (put_all moof_put items (None, [])) = Some v ->
+     decodes_to (open_body m) (F0 + length cs) (mkChild w64 0x6d6f6f66 (render cs)) (OI_moof v)).
+Proof.
+  intros m. repeat split.
+  - exact (open_child_skip m). - exact (open_child_mdat m). - exact (open_child_ftyp m).
+  - exact (open_child_moov m). - exact (open_child_moof m).
+Qed.
+Print Assumptions top_level_children_decode.
+
+(** fragmented files: the offset recorded for a moof is the position of its box, so a box of
+    length [n] inserted before it moves the recorded offset by exactly [n] *)
+Theorem moof_offsets_are_positions :
+  (forall p c cs items a, open_put_all p (c :: cs) (OI_skip :: items) a = open_put_all (p + c_len c) cs items a) /\
+  (forall p c cs items x ft mv moofs offs emsgs,
+     open_put_all p (c :: cs) (OI_moof x :: items) (ft, mv, moofs, offs, emsgs)
+     = open_put_all (p + c_len c) cs items (ft, mv, moofs ++ [x], offs ++ [p], emsgs)) /\
+  (forall p l1 l2 i1 i2 a, length l1 = length i1 ->
+     open_put_all p (l1 ++ l2) (i1 ++ i2) a = open_put_all (p + total_len l1) l2 i2 (open_put_all p l1 i1 a)).
+Proof. split; [exact open_put_all_skip | split; [exact open_put_all_moof | exact open_put_all_app]]. Qed.
+
+(** ** Sample offsets follow the media data
+
+    A layout change moves the media data, and the chunk offsets are rewritten by the
+    displacement.  For a non-fragmented track, [shift_track delta t] is [t] with every stco /
+    co64 entry increased by [delta] (it is the lookup view of the trak with the rewritten
+    tables: [track_view_shift]). *)
+Theorem sample_offsets_shift_with_the_data : forall m delta t sid o,
+  Track.tr_frags t = [] -> Track.sample_offset m t sid = Ok o -> o + delta < U64 ->
+  Track.sample_offset m (shift_track delta t) sid = Ok (o + delta).
+Proof. exact sample_offset_shift. Qed.
+Print Assumptions sample_offsets_shift_with_the_data.
+
+Theorem other_lookups_ignore_chunk_offsets : forall m delta t sid,
+  Track.sample_count (shift_track delta t) = Track.sample_count t /\
+  Track.sample_size (shift_track delta t) sid = Track.sample_size t sid /\
+  Track.sample_time m (shift_track delta t) sid = Track.sample_time m t sid /\
+  Track.sample_rendering_offset (shift_track delta t) sid = Track.sample_rendering_offset t sid /\
+  Track.is_sync_sample (shift_track delta t) sid = Track.is_sync_sample t sid.
+Proof. exact shift_other_lookups. Qed.
+
+(** the same sample is read when the bytes at the shifted offset are the same bytes *)
+Theorem read_sample_follows_the_data : forall m delta t sid s s' o sz h,
+  Track.tr_frags t = [] -> stream_wf s -> stream_wf s' ->
+  Track.sample_offset m t sid = Ok o -> o + delta < U64 ->
+  Track.sample_size t sid = Ok sz ->
+  (sz = 0 \/ (exists r, splitN sz (dropN o (s_data s)) = Some (h, r)) /\
+             (exists r', splitN sz (dropN (o + delta) (s_data s')) = Some (h, r'))) ->
+  fst (run (Track.read_sample m t sid) s) = fst (run (Track.read_sample m (shift_track delta t) sid) s').
+Proof. exact read_sample_shift. Qed.
+Print Assumptions read_sample_follows_the_data.
+
+Theorem shifted_trak_is_shifted_track : forall delta t,
+  track_view (mp4track_from (shift_trak delta t)) = shift_track delta (track_view (mp4track_from t)).
+Proof. exact track_view_shift. Qed.
+
 (** ** Non-vacuity *)
 
 (** building blocks: a child from an encoder's output (type code and payload as written), with
@@ -702,3 +863,166 @@ Lemma meta_zero_padding_drops_following_traks_refuted :
   map (fun n => ex12_ntraks (ex12_moov_padded meta_b n)) [0; 8; 12; 16]%nat = [Some 1; Some 1; Some 0; Some 0]%nat /\
   map (fun n => ex12_ntraks (ex12_moov_padded udta_b n)) [0; 8; 12; 16]%nat = [Some 1; Some 1; Some 1; Some 1]%nat.
 Proof. vm_compute. split; reflexivity. Qed.
+
+(** ... which makes the ORDER of siblings matter: the same three boxes (mvhd, a trak, a meta
+    with 16 zero bytes after its last child) in two orders give one trak or none.  This pair
+    contradicts C12 as stated (sibling order), so [C12_statement] below excludes meta boxes with
+    bytes after their last child; with a final [skip_bytes_to(start + size)] in
+    [MetaBox::read_box], as every other container has, the exclusion would not be needed. *)
+Definition ex12_padded_meta : child :=
+  ex12_child false (wout (enc_meta (MetaMdir (Some ilst_test)))) (repeat 0 16).
+Lemma meta_padding_makes_sibling_order_matter_refuted :
+  let mvhd_c := ex12_child false (wout (enc_mvhd mvhd_default)) [] in
+  let trak_c := ex12_child false (wout (enc_trak Dbg trak_test)) [] in
+  ex12_ntraks (c_bytes (ex12_box false 0x6d6f6f76 [mvhd_c; trak_c; ex12_padded_meta])) = Some 1%nat /\
+  ex12_ntraks (c_bytes (ex12_box false 0x6d6f6f76 [mvhd_c; ex12_padded_meta; trak_c])) = Some 0%nat.
+Proof. vm_compute. split; reflexivity. Qed.
+
+(** ** The full statement
+
+    [C12_statement] is the property as one proposition, for non-fragmented files.  It is NOT
+    proved as one theorem.  Proved above: every mechanism it rests on, for every loop of the
+    parser; the fold theorems of the reader loop and of moov, trak, mdia, minf, stbl, dinf, udta,
+    mvex (and moof, traf); that leaves / skipped boxes / nested containers are children of those
+    folds in either header form and with spare bytes; the equivariance of the lookups under a
+    displacement of the media data.  Missing: the induction over arbitrary box trees that glues
+    the per-container theorems together — it needs, for every child type, that a child which
+    decodes at all decodes to the same value after a layout step, which the development has only
+    for CANONICAL payloads ([iso_xxx_payload v ++ spare], from the round-trip theorems) and not
+    at all for stsd, edts, meta / ilst (no round-trip theorem exists for them; the sample entries
+    avc1 / hev1 / vp09 / mp4a / tx3g inside stsd do not iterate, see "Limits") — and fragmented
+    files (moof offsets, trun data offsets and tfhd base offsets move with the layout; only
+    [moof_offsets_are_positions] and the moof / traf fold theorems are proved). *)
+
+(** a box tree: a leaf is any box taken as a whole; a node is a box whose payload is the
+    rendering of its children *)
+Inductive btree :=
+| BLeaf (c : child)
+| BNode (w64 : bool) (code : N) (kids : list btree).
+
+Fixpoint bt_child (t : btree) : child :=
+  match t with
+  | BLeaf c => c
+  | BNode w code kids => mkChild w code (flat_map (fun k => c_bytes (bt_child k)) kids)
+  end.
+
+Inductive bt_wf : btree -> Prop :=
+| wf_leaf c : child_wf c -> bt_wf (BLeaf c)
+| wf_node w code kids :
+    child_wf (bt_child (BNode w code kids)) -> Forall bt_wf kids -> bt_wf (BNode w code kids).
+
+(** the containers that iterate over their children, with the child types each interprets *)
+Definition iterating (code : N) : option (boxtype -> bool) :=
+  match boxtype_of_u32 code with
+  | MoovBox => Some moov_known | TrakBox => Some trak_known | MdiaBox => Some mdia_known
+  | MinfBox => Some minf_known | StblBox => Some stbl_known | DinfBox => Some dinf_known
+  | UdtaBox => Some udta_known | MvexBox => Some mvex_known
+  | _ => None
+  end.
+
+(** fixed-layout and table boxes (and hdlr, whose string is NUL-terminated) *)
+Definition spare_ok (code : N) : bool :=
+  match boxtype_of_u32 code with
+  | MvhdBox | TkhdBox | MdhdBox | VmhdBox | SmhdBox | HdlrBox
+  | SttsBox | CttsBox | StscBox | StszBox | StssBox | StcoBox | Co64Box => true
+  | _ => false
+  end.
+
+(** one layout step among the children of a loop that interprets the types [known], and one
+    layout step on a tree *)
+Inductive lstep : (boxtype -> bool) -> list btree -> list btree -> Prop :=
+| ls_insert known l1 l2 c :
+    known (boxtype_of_u32 (c_code c)) = false -> child_wf c ->
+    lstep known (l1 ++ l2) (l1 ++ BLeaf c :: l2)
+| ls_swap known l1 l2 a b :
+    c_code (bt_child a) <> c_code (bt_child b) ->
+    lstep known (l1 ++ a :: b :: l2) (l1 ++ b :: a :: l2)
+| ls_inside known l1 l2 a b :
+    tstep a b -> lstep known (l1 ++ a :: l2) (l1 ++ b :: l2)
+with tstep : btree -> btree -> Prop :=
+| ts_hdr_leaf c b : tstep (BLeaf c) (BLeaf (with_w64 b c))
+| ts_hdr_node w b code kids : tstep (BNode w code kids) (BNode b code kids)
+| ts_spare c spare : spare_ok (c_code c) = true -> tstep (BLeaf c) (BLeaf (with_tail spare c))
+| ts_stco w v v' spare :
+    (* the chunk offsets are rewritten (as many entries) *)
+    stco_version v' = stco_version v -> stco_flags v' = stco_flags v ->
+    length (stco_entries v') = length (stco_entries v) ->
+    tstep (BLeaf (mkChild w 0x7374636f (iso_stco_payload v ++ spare)))
+          (BLeaf (mkChild w 0x7374636f (iso_stco_payload v' ++ spare)))
+| ts_co64 w v v' spare :
+    co64_version v' = co64_version v -> co64_flags v' = co64_flags v ->
+    length (co64_entries v') = length (co64_entries v) ->
+    tstep (BLeaf (mkChild w 0x636f3634 (iso_co64_payload v ++ spare)))
+          (BLeaf (mkChild w 0x636f3634 (iso_co64_payload v' ++ spare)))
+| ts_kids w code known kids kids' :
+    iterating code = Some known -> lstep known kids kids' ->
+    tstep (BNode w code kids) (BNode w code kids').
+
+(** every leaf of a tree satisfies [P] *)
+Inductive bt_leaves (P : child -> Prop) : btree -> Prop :=
+| bl_leaf c : P c -> bt_leaves P (BLeaf c)
+| bl_node w code kids : Forall (bt_leaves P) kids -> bt_leaves P (BNode w code kids).
+
+(** a meta box is filled exactly by its children (see [meta_padding_makes_sibling_order_matter_refuted]) *)
+Definition meta_tight (c : child) : Prop :=
+  c_code c = 0x6d657461 ->
+  exists kids, Forall child_wf kids /\ (c_payload c = be 4 0 ++ render kids \/ c_payload c = render kids).
+
+Definition file_of (ts : list btree) : bytes := render (map bt_child ts).
+
+Definition opens (m : mode) (f : bytes) (r : mp4reader) : Prop :=
+  exists fuel, fst (run (open_fuel fuel m (lenN f)) (stream_at f 0)) = Ok r.
+
+(** the moov without the entries of its chunk-offset tables *)
+Definition strip_chunk_offsets (v : moov) : moov :=
+  mkMoov (moov_mvhd v) (moov_meta v) (moov_mvex v)
+    (map (fun t =>
+            let md := trak_mdia t in let mi := mdia_minf md in let s := minf_stbl mi in
+            mkTrak (trak_tkhd t) (trak_edts t) (trak_meta t)
+              (mkMdia (mdia_mdhd md) (mdia_hdlr md)
+                 (mkMinf (minf_vmhd mi) (minf_smhd mi) (minf_dinf mi)
+                    (mkStbl (stbl_stsd s) (stbl_stts s) (stbl_ctts s) (stbl_stss s)
+                            (stbl_stsc s) (stbl_stsz s)
+                            (option_map (fun c => mkStco (stco_version c) (stco_flags c) []) (stbl_stco s))
+                            (option_map (fun c => mkCo64 (co64_version c) (co64_flags c) []) (stbl_co64 s))))))
+         (moov_traks v))
+    (moov_udta v).
+
+Definition C12_statement : Prop :=
+  forall m (TA TB : list btree) ra,
+    Forall bt_wf TA -> Forall bt_wf TB ->
+    Forall (bt_leaves meta_tight) TA -> Forall (bt_leaves meta_tight) TB ->
+    clos_refl_sym_trans _ (lstep open_known) TA TB ->
+    let A := file_of TA in
+    let B := file_of TB in
+    opens m A ra -> rd_moofs ra = [] ->
+    exists rb,
+      opens m B rb /\
+      (* the same movie: brands, metadata, every box of the moov except the chunk offsets *)
+      rd_ftyp rb = rd_ftyp ra /\ rd_emsgs rb = rd_emsgs ra /\ rd_moofs rb = [] /\
+      rd_metadata rb = rd_metadata ra /\
+      strip_chunk_offsets (rd_moov rb) = strip_chunk_offsets (rd_moov ra) /\
+      map fst (rd_tracks rb) = map fst (rd_tracks ra) /\
+      rd_size ra = lenN A /\ rd_size rb = lenN B /\
+      forall tid ta tb,
+        tracks_get tid (rd_tracks ra) = Some ta -> tracks_get tid (rd_tracks rb) = Some tb ->
+        (* the same per-sample tables *)
+        Track.sample_count (track_view tb) = Track.sample_count (track_view ta) /\
+        (forall sid,
+           Track.sample_size (track_view tb) sid = Track.sample_size (track_view ta) sid /\
+           Track.sample_time m (track_view tb) sid = Track.sample_time m (track_view ta) sid /\
+           Track.sample_rendering_offset (track_view tb) sid = Track.sample_rendering_offset (track_view ta) sid /\
+           Track.is_sync_sample (track_view tb) sid = Track.is_sync_sample (track_view ta) sid) /\
+        (* offsets shifted by exactly the layout change: when the chunk offsets of the track
+           were rewritten by the displacement [delta] of its media data ... *)
+        (forall delta,
+           Track.tr_tables (track_view tb) = shift_tables delta (Track.tr_tables (track_view ta)) ->
+           forall sid o, Track.sample_offset m (track_view ta) sid = Ok o -> o + delta < U64 ->
+             Track.sample_offset m (track_view tb) sid = Ok (o + delta) /\
+             (* ... and the media data is where the offsets say, the same sample is read *)
+             forall sz h,
+               Track.sample_size (track_view ta) sid = Ok sz ->
+               (sz = 0 \/ (exists r, splitN sz (dropN o A) = Some (h, r)) /\
+                          (exists r', splitN sz (dropN (o + delta) B) = Some (h, r'))) ->
+               fst (run (rd_read_sample m ra tid sid) (stream_at A 0))
+               = fst (run (rd_read_sample m rb tid sid) (stream_at B 0))).
